@@ -201,6 +201,27 @@ theorem C06_no_fault (valid : Bytes → Bool) (h : List Op) :
     (PatState.init.run valid h).static = (PatState.init.run valid h).routes :=
   ⟨(C06_pattern_invariant valid h).noFault, (C06_pattern_invariant valid h).committed⟩
 
+/-- Each target has at most one element in the list of each HTTP method, and its back-links are exactly
+    the methods where it has one, without duplicates — so "the element a `targetLinks` entry points to"
+    is well defined by (method, target name), the way the model identifies `*list.Element`s. -/
+theorem C06_elements_unique (valid : Bytes → Bool) (h : List Op) (m : HMethod) (n : Name) :
+    (((groupsOf (PatState.init.run valid h).routes m).map (·.name)).Nodup) ∧
+    (sliceOf ((PatState.init.run valid h).links n)).Nodup ∧
+    (m ∈ sliceOf ((PatState.init.run valid h).links n) ↔
+      ∃ g ∈ groupsOf (PatState.init.run valid h).routes m, g.name = n) := by
+  have inv := C06_pattern_invariant valid h
+  refine ⟨UInv_run h (PInv_init valid) UInv_init m, inv.linksNodup n, ?_⟩
+  rw [inv.links n m]
+  constructor
+  · intro hs
+    cases hg : specGroup valid (latestOf h) m n with
+    | none => simp [hg] at hs
+    | some g => exact ⟨g, inv.complete _ _ _ hg, specGroup_name hg⟩
+  · rintro ⟨g, hg, hn⟩
+    have := inv.sound _ _ hg
+    rw [hn] at this
+    simp [this]
+
 /-! ### D6: what was wrong before the fix (kernel-checked witness on explicit data) -/
 
 /-- descriptions v1 and v2 of target "a", both listing service "S" -/
